@@ -10,12 +10,12 @@ IJ == {"i", "j"}
 IJK == {"i", "j", "k"}
 W2 == {"scope", "jump"}
 \* two leaves, two productions: scalars, a vector, a 2x3 matrix, a pointwise and a generating function
-FamCore == Fam(2, 2, 2, {"c", "a", "B"}, {"2"}, {"sqr", "g"}, IJ, IJ, {"2", "-1"}, AllWraps, None, None, None)
+FamCore == Fam(2, 2, 2, {"c", "a", "B"}, {"2"}, {"g"}, IJ, IJ, {"2", "-1"}, W2, None, None, None)
 FamCore0 == Fam(2, 2, 2, {"c", "a", "B"}, {"2"}, {"sqr", "g"}, {"i", "j", "0"}, IJ, {"2", "-1"}, AllWraps, None, None, None)
 \* every rule-breaking constructor / every token corruption and the whitespace style, small vocabulary
 FamMut == Fam(2, 2, 2, {"c", "a"}, {"2"}, {"g"}, {"i"}, {"i"}, {"2"}, {"scope"}, AllMuts, None, None)
 FamMut3 == Fam(3, 2, 3, {"c"}, {"2"}, None, None, None, {"2"}, None, {"number-position", "repeated-power", "repeated-fraction", "misplaced-minus"}, None, None)
-FamCor == Fam(2, 2, 2, {"c", "a"}, {"2"}, {"sqr", "g"}, {"i"}, {"i"}, {"2"}, W2, None, AllCors, {1})
+FamCor == Fam(2, 2, 2, {"c", "a"}, {"2"}, {"g"}, {"i"}, {"i"}, {"2"}, {"mean"}, None, AllCors, {1})
 \* one leaf: numerals, traces, selections on arrays of rank 1..3
 FamRank3 == Fam(1, 2, 1, {"A", "B", "T", "u"}, None, None, {"i", "j", "k", "0", "2"}, None, {"2"}, W2, None, None, None)
 \* one leaf, one call: generated axes with numerals, traced with the argument's axes
